@@ -3,8 +3,9 @@ import Nstd.Callback.Model
 import Nstd.Callback.Spec
 /-
   Line protocol of the Callback area (property C12).  Universe of the harness: 3 emitters
-  with 9 signals each (signal `g` has `g` parameters: it goes through the arity-`g` overloads of
-  `emit` / `connect` / `disconnect`), 3 listeners with 2 slots each, script cells (listener, slot,
+  with 10 signals each (signal `g < 9` has `g` `int` parameters: it goes through the arity-`g` overloads of
+  `emit` / `connect` / `disconnect`; signal 9 has one `int&` parameter: script action `aD` = the slot adds D to its
+  parameter before it returns, ` =w` in the log = a slot called with the reference left `w` in it), 3 listeners with 2 slots each, script cells (listener, slot,
   invocation# < 8) of at most 8 actions.  An emission carries one number `v < 10`: the harness passes
   `(v, v+1, …, v+g-1)`, the slot checks the tuple and logs `v` (`v` must be 0 for signal 0).
 
@@ -34,7 +35,7 @@ open Nstd.Common
 namespace Nstd.Callback
 
 def NE : Nat := 3
-def NG : Nat := 9
+def NG : Nat := 10
 def NV : Nat := 10
 def NL : Nat := 3
 def NS : Nat := 2
@@ -61,6 +62,7 @@ def parseAction (t : String) : Option Action :=
     let g ← digit g NG
     let v ← digit v NV
     if g = 0 ∧ v ≠ 0 then none else pure (.emit (← digit e NE) g v)
+  | ['a', d] => do pure (.bump (← digit d 10))
   | ['L', l] => do pure (.delL (← digit l NL))
   | ['E', e] => do pure (.delE (← digit e NE))
   | ['n', l] => do pure (.newL (← digit l NL))
@@ -119,6 +121,7 @@ def evStr : Ev → String
   | .call l s v => s!" {l}.{s}:{v}"
   | .emitBegin e g v => s!" <{e}.{g}:{v}"
   | .emitEnd => " >"
+  | .ret w => s!" ={w}"
 
 def logStr (log : List Ev) : String :=
   "log" ++ String.join (log.reverse.map evStr)
@@ -174,7 +177,7 @@ def stepLine (d : DState) (ws : List String) : DState × String :=
     match top with
     | none => (d, "bad-op")
     | some as =>
-      let P : Prog := Prog.ofTable d.table
+      let P : Prog := Prog.ofTable d.table (fun g => g == 9)
       let mr := exec machine P FUEL { d.mr with log := [] } (.acts as)
       let sr := exec Spec.machine P FUEL { d.sr with log := [] } (.acts as)
       let d' := { d with mr := mr, sr := sr }
